@@ -1669,16 +1669,20 @@ func (s sortedErrors) Less(i, j int) bool {
 
 	// compare remaining indices of the error string slices
 	// in order to create a total ordering.
-	for i := 1; i < errorSplitCount; i++ {
+	for k := 1; k < errorSplitCount; k++ {
 		switch {
 		// Handle when an expected index doesn't exist.
-		case len(fj) == i:
+		case len(fi) == k && len(fj) == k:
+			// Both messages end here and nless saw no difference
+			// ("2" and "02"): the whole message decides.
+			return s[i].s < s[j].s
+		case len(fj) == k:
 			return false
-		case len(fi) == i:
+		case len(fi) == k:
 			return true
 		}
 
-		switch nless(fi[i], fj[i]) {
+		switch nless(fi[k], fj[k]) {
 		case -1:
 			return true
 		case 1:
